@@ -119,6 +119,10 @@ theorem linv_step {s s' : Shared} {pre post : List Thread} {t t' : Thread}
     refine linv_nolock h rfl rfl (fun l => ?_) ht'
     rw [hP_of_not_lock t ht l (fun l' r hh => by rw [hcode] at hh; cases hh)]
     simp [hP, ht.nowait (fun l' r hh => by rw [hcode] at hh; cases hh)]
+  | load op rest hc hcode =>
+    refine linv_nolock h rfl rfl (fun l => ?_) ht'
+    rw [hP_of_not_lock t ht l (fun l' r hh => by rw [hcode] at hh; cases hh)]
+    simp [hP, ht.nowait (fun l' r hh => by rw [hcode] at hh; cases hh)]
   | eff op a rest hc hcode =>
     refine linv_nolock h rfl rfl (fun l => ?_) ht'
     rw [hP_of_not_lock t ht l (fun l' r hh => by rw [hcode] at hh; cases hh)]
